@@ -3,6 +3,9 @@
 // projection).  The library result, read back by iteration, must be the reference value; failures only as documented.
 #include "model/libenv.hpp"
 
+#include "ccl/semantic/RSModel.h"
+#include "ccl/tools/EntityGenerator.h"
+
 using pbt::Ctx;
 using pbt::Verdict;
 using namespace rs;
@@ -126,10 +129,77 @@ Verdict evalProp(Ctx& c) {
   return pbt::pass();
 }
 
+// ---- the same question through an interpreted model: RSModel::Calculations().Calculate + Values().SDataFor / StatementFor ----
+Verdict modelProp(Ctx& c) {
+  using ccl::semantic::CstType;
+  TypedGen g(c);
+  g.optConstant = false; g.optDerived = false; g.optMinBase = 1;
+  g.makeContext();
+  const int rootKind = c.ipick(0, 9);
+  const Ty target = rootKind < 4 ? Ty::Logic() : rootKind < 8 ? Ty::Set(g.randType(2)) : g.randType(2);
+  const int depth = c.ipick(1, 3);
+  EP e = target.k == Ty::LOGIC ? g.genLogic(depth) : g.genTerm(target, depth);
+  const std::string text = render(e);
+  const uint64_t idSeed = static_cast<uint64_t>(c.pick(1, 1000000));
+  c.show << showGamma(g.G) << "\n  model: " << (target.k == Ty::LOGIC ? "A50" : "D50") << ":==" << text;
+  c.exec();
+  Outcome ref;
+  try { Evaluator ev(g.G); ref = ev.eval(e); } catch (const Budget&) { return pbt::discard("model-budget"); }
+
+  ccl::tools::EntityGenerator::VerifSeed(idSeed);
+  struct Unseed { ~Unseed() { ccl::tools::EntityGenerator::VerifUnseed(); } } unseed;
+  ccl::semantic::RSModel m;
+  ccl::EntityUID next = 1;
+  auto insert = [&](const std::string& alias, CstType type, const std::string& def) { ccl::semantic::ConceptRecord r; r.uid = next++; r.alias = alias; r.type = type; r.rs = def; return m.InsertCopy(r); };
+  for (auto& gl : g.G.globals) {
+    if (gl.isBase) {
+      const auto uid = insert(gl.name, CstType::base, "");
+      for (size_t i = 0; i < gl.value.items.size(); ++i) { const auto id = m.Values().AddBasicElement(uid, "e" + std::to_string(i + 1)); CHECK(id.has_value() && *id == static_cast<int>(i + 1), "harness-model-setup", "AddBasicElement did not issue id " + std::to_string(i + 1)); }
+    } else {
+      const auto uid = insert(gl.name, CstType::structured, render(domainExpr(gl.type)));
+      CHECK(m.GetRS(uid).alias == gl.name, "harness-model-setup", "structure alias changed");
+      if (!gl.value.items.empty() && !m.Values().SetStructureData(uid, toLibData(gl.value))) { c.count("structure-data-refused:" + gl.type.str()); return pbt::discard("structure-data-refused"); }
+    }
+  }
+  for (auto& f : g.G.funcs) {
+    std::vector<EP> decl; for (auto& a : f.args) decl.push_back(mk(TID::NT_ARG_DECL, {mkName(TID::ID_LOCAL, a.first), domainExpr(a.second)}));
+    insert(f.name, f.result.k == Ty::LOGIC ? CstType::predicate : CstType::function, render(mk(TID::NT_FUNC_DEFINITION, {mk(TID::NT_ARGUMENTS, decl), f.body})));
+  }
+  const bool logic = target.k == Ty::LOGIC;
+  const auto uid = insert(logic ? "A50" : "D50", logic ? CstType::axiom : CstType::term, text);
+  const bool verified = m.GetParse(uid).status == ccl::semantic::ParsingStatus::VERIFIED;
+  if (!verified) { c.count("generator-ill-typed-or-kind-mismatch"); return pbt::discard("not-verified-in-schema"); }
+  const bool calc = m.Calculations().Calculate(uid);
+  // the direct path with the same content, for the error codes the model does not expose
+  Run direct; try { direct = runLib(g.G, text, rl::Syntax::MATH, false); } catch (const Budget&) { return pbt::discard("readback-budget"); }
+  CHECK(calc == direct.ok, "model-vs-direct", std::string("Calculate returned ") + (calc ? "true" : "false") + " but direct evaluation " + (direct.ok ? "succeeds" : "fails:" + direct.errText));
+  c.label(calc ? "model:calculated" : "model:failed");
+  if (!calc) {
+    CHECK(!m.Values().SDataFor(uid).has_value() && !m.Values().StatementFor(uid).has_value(), "value-after-failed-calculation", "a failed calculation left a value visible");
+    if (ref.hasValue && !ref.mayDebool && !ref.mayLimit) { bool limit = false; for (auto eid : direct.errs) limit |= isLimitCode(eid); if (limit) { c.count("inconclusive-resource-limit"); return pbt::pass(); } return pbt::fail("spurious-failure", "calculation failed" + direct.errText + " but the set-theoretic value is defined"); }
+    return pbt::pass();
+  }
+  CHECK(m.Calculations().WasCalculated(uid), "calculated-flag", "Calculate succeeded but WasCalculated is false");
+  if (!ref.hasValue) { if (ref.mayLimit) { c.count("inconclusive-resource-limit"); return pbt::pass(); } return pbt::fail("value-where-error-expected", "model calculated a value but the only set-theoretic outcome is an error"); }
+  if (logic) {
+    const auto st = m.Values().StatementFor(uid);
+    CHECK(st.has_value(), "missing-statement", "calculated axiom has no statement value");
+    CHECK(*st == ref.b, "wrong-value", std::string("model statement ") + (*st ? "true" : "false") + " but set-theoretic value is " + (ref.b ? "true" : "false"));
+  } else {
+    const auto d = m.Values().SDataFor(uid);
+    CHECK(d.has_value(), "missing-data", "calculated term has no data");
+    long budget = 400000; Val v; try { v = fromLibData(*d, &budget); } catch (const Budget&) { return pbt::discard("readback-budget"); }
+    CHECK(v == ref.v, "wrong-value", "model value " + v.str() + " but set-theoretic value is " + ref.v.str());
+  }
+  c.nontrivial = (g.binders > 0 || g.features[0] || g.ops >= 3);
+  return pbt::pass();
+}
+
 }  // namespace
 
 int main(int argc, char** argv) {
   std::vector<pbt::Prop> props;
-  props.push_back({"evaluate", evalProp, 3000, 40000, false, false, "type-directed expressions x contexts x data; 2-4 renderings each"});
+  props.push_back({"evaluate", evalProp, 2500, 40000, false, false, "type-directed expressions x contexts x data; 2-4 renderings each"});
+  props.push_back({"model_calculate", modelProp, 1200, 20000, false, false, "the same content as an RSModel: Calculate + SDataFor / StatementFor vs the reference value"});
   return pbt::main(argc, argv, "C01", props);
 }
